@@ -1,5 +1,7 @@
 SPECIFICATION TSpec
-CONSTANT BCfgSet <- AnyCfg
+CONSTANTS
+  FinalRule = "buffer_nonempty"
+  BCfgSet <- AnyCfg
 INVARIANT TraceInv
 CONSTRAINT Track
 POSTCONDITION Post
